@@ -4,6 +4,7 @@ import Driver.Wopn
 import Driver.BankMap
 import Driver.Pitch
 import Driver.Synth
+import Driver.Audio
 
 def main (args : List String) : IO UInt32 := do
   let stdin ← IO.getStdin
@@ -13,6 +14,7 @@ def main (args : List String) : IO UInt32 := do
   | ["bankmap"] => Driver.loop stdin stdout Driver.BankMap.step Driver.BankMap.init; return 0
   | ["pitch"] => Driver.loop stdin stdout Driver.Pitch.step (); return 0
   | ["synth"] => Driver.loop stdin stdout Driver.Synth.step Opn.Synth.init; return 0
+  | ["audio"] => Driver.loop stdin stdout Driver.Audio.step (); return 0
   | ["wopn"] => Driver.loop stdin stdout Driver.Wopn.step (); return 0
   | _ =>
     IO.eprintln "usage: opnmodel <component>   (ops on stdin, one observation line per op on stdout)"
